@@ -40,10 +40,13 @@ func (c17) Info(tier string) fw.Info {
 			"oracle: no race report with a /repo frame; every expected line appears exactly once and whole; arguments echo the spawn-time values; every fin(id) event precedes the wait-returned event; a failing core's fatal interrupt is what the wait returns; the history of global reads/writes is linearizable per global (porcupine, register model). " +
 			"family shared-ro: globals holding ranges, int lists, str lists and strings which the cores only read, and range/list/str spawn arguments taken from a global, from a local of main shared by several spawns or from a literal, consumed by 2..8 cores at overlapping times through for / for+break (and re-entry) / for+continue / nested for / for over a local copy / index+len, with a host scheduling point tick() in every loop body and GOMAXPROCS set per case; oracle: every core prints exactly the result line its function prints in the sequential twin of the program (each `spawn f(..)` replaced by the call `f(..)`), plus the oracles above. " +
 			"family shared-path: the same for shared values which a core reaches through an expression: a global object, an object nested in an object, global lists of int lists / ranges / objects and object / list-of-lists spawn arguments (taken from a global, a part of a global, a shared local of main or a literal) hold the ranges, lists and strings; the iterable (or indexed value) of every loop form is a member, member-of-member, constant or computed index, member-then-index, index-then-member expression, the result of a call to a function returning a global or a part of one, or such an expression inside a grouping, block, if/else or cast; same twin oracle. " +
+			"family own-state: 2..8 cores which each build their own any-objects, lists, lists of lists, objects (with nested containers) and strings at source sites all cores evaluate (in the worker, in a helper, in a loop body, as a field / element of another literal, as a literal argument of a spawn, also of one spawn statement in a loop) and mutate them through set / push / push_front / insert / pop / element, field and compound assignment with tick() in every loop body; same twin oracle. " +
+			"family fatal: one core (sometimes two; a worker, a child of a worker or main) dies of integer/float division or remainder by zero, a negative power of zero, a negative shift count, an uncaught throw, unwrap of none, a failing cast, a failing assert, an index error, the call stack limit or the memory limit, raised 0..3 calls below the function the core was started with (plain, in for/if, while, try bodies, below a recursive function), all functions having names of 2..48 characters, while 1..6 other cores run forever or end early; oracle: the wait returns the fatal interrupt (class, kind, message, position) which the VM reports when main of a one-core twin program calls the failing function (of either failing function), and afterwards no goroutine stays inside Core.Run. " +
 			"non-trivial = at least 2 cores ran and the run finished; distinct = distinct (program, plan, GOMAXPROCS); interleavings_distinct counts distinct per-core event orders observed",
 		Assumptions: []string{
 			"schedules are sampled (yield plans + GOMAXPROCS), not enumerated",
 			"mutable containers reachable from several cores are not synchronised by design notes in the code (TODO deepcopy) and are only read in the main workload",
+			"family fatal: the identity of a fatal interrupt is class, kind, first message line (numbers saying by how much a limit was exceeded masked) and, except for the limit errors, the source position",
 			"families shared-ro and shared-path: the reference result of a worker is what the real VM computes for the same function called sequentially (twin run, one core); what an iteration yields is not modelled",
 		},
 		CaseTimeoutS: 60,
@@ -59,13 +62,14 @@ func (c17) Info(tier string) fw.Info {
 type Payload struct {
 	Seed  uint64 `json:"seed"`
 	Plan  uint64 `json:"plan"`
-	Shape string `json:"shape"` // print | globals | args | mixed | fail | nested | late-spawn | shared-ro | shared-path
+	Shape string `json:"shape"` // print | globals | args | mixed | fail | nested | late-spawn | shared-ro | shared-path | own-state | fatal
 	// ForceGap: always sleep in the wait lock-upgrade gap (pinned witnesses).
 	ForceGap bool `json:"force_gap,omitempty"`
 	// Procs: GOMAXPROCS for this case (0 = whatever the batch runs with).
 	Procs int `json:"procs,omitempty"`
-	// Hot: shared-ro / shared-path only, index of the global (of the expression) every worker of the program consumes
-	// (stratified over the programs).
+	// Hot: shared-ro / shared-path: index of the global (of the expression) every worker of the program consumes;
+	// own-state: index of the container / site kind every worker builds; fatal: index of the error the failing core
+	// dies of (stratified over the programs).
 	Hot int `json:"hot,omitempty"`
 }
 
@@ -111,7 +115,7 @@ func (c17) Cases(tier string, seed uint64) []fw.Case {
 	rp := fw.NewRng(seed ^ 0xC17947)
 	npa, paPlans := 12, 3
 	if tier == "thorough" {
-		npa, paPlans = 2 * roPathHots, 6
+		npa, paPlans = 2*roPathHots, 6
 	}
 	paSeeds := make([]uint64, npa)
 	for i := range paSeeds {
@@ -122,6 +126,43 @@ func (c17) Cases(tier string, seed uint64) []fw.Case {
 			plan := rp.Next()
 			for _, procs := range []int{1, 2, 4, 16} {
 				cases = append(cases, fw.MkCase(fmt.Sprintf("c17-pa-%03d-%d-p%d", i, j, procs), "threads", Payload{Seed: paSeeds[i], Plan: plan, Shape: "shared-path", Procs: procs, Hot: i % roPathHots}))
+			}
+		}
+	}
+	// family own-state (see ownstate.go): containers every core builds for itself at source sites shared by all cores.
+	ro := fw.NewRng(seed ^ 0xC170e5)
+	nos, osPlans := len(osHots), 2
+	if tier == "thorough" {
+		nos, osPlans = 3*len(osHots), 6
+	}
+	osSeeds := make([]uint64, nos)
+	for i := range osSeeds {
+		osSeeds[i] = ro.Next()
+	}
+	for j := 0; j < osPlans; j++ {
+		for i := 0; i < nos; i++ {
+			plan := ro.Next()
+			for _, procs := range []int{1, 2, 4, 16} {
+				cases = append(cases, fw.MkCase(fmt.Sprintf("c17-os-%03d-%d-p%d", i, j, procs), "threads", Payload{Seed: osSeeds[i], Plan: plan, Shape: "own-state", Procs: procs, Hot: i % len(osHots)}))
+			}
+		}
+	}
+	// family fatal (see fatal.go): a core dying of every kind of fatal error, at every call depth, below functions
+	// with names of every length.
+	rf := fw.NewRng(seed ^ 0xC17fa7)
+	nfa, faPlans := 2*len(fatalKinds), 1
+	if tier == "thorough" {
+		nfa, faPlans = 8*len(fatalKinds), 3
+	}
+	faSeeds := make([]uint64, nfa)
+	for i := range faSeeds {
+		faSeeds[i] = rf.Next()
+	}
+	for j := 0; j < faPlans; j++ {
+		for i := 0; i < nfa; i++ {
+			plan := rf.Next()
+			for _, procs := range []int{1, 2, 4, 16} {
+				cases = append(cases, fw.MkCase(fmt.Sprintf("c17-fa-%03d-%d-p%d", i, j, procs), "threads", Payload{Seed: faSeeds[i], Plan: plan, Shape: "fatal", Procs: procs, Hot: i % len(fatalKinds)}))
 			}
 		}
 	}
@@ -143,12 +184,25 @@ type spec struct {
 }
 
 // roShape: the families whose oracle is the sequential twin.
-func roShape(shape string) bool { return shape == "shared-ro" || shape == "shared-path" }
+func roShape(shape string) bool {
+	return shape == "shared-ro" || shape == "shared-path" || shape == "own-state"
+}
+
+// roWhat says what the workers of a twin-judged family do.
+func roWhat(shape string) string {
+	if shape == "own-state" {
+		return "writing only into containers it has created itself (r id ticks, then size and content of each container)"
+	}
+	return "consuming values which no core ever writes (r id count checksum elements)"
+}
 
 // buildRO builds a program of such a family (seq: its sequential twin).
 func buildRO(p Payload, seq bool) spec {
-	if p.Shape == "shared-path" {
+	switch p.Shape {
+	case "shared-path":
 		return buildSharedPath(p, seq)
+	case "own-state":
+		return buildOwnState(p, seq)
 	}
 	return buildSharedRO(p, seq)
 }
@@ -156,6 +210,9 @@ func buildRO(p Payload, seq bool) spec {
 func build(p Payload) spec {
 	if roShape(p.Shape) {
 		return buildRO(p, false)
+	}
+	if p.Shape == "fatal" {
+		return buildFatal(p).spec
 	}
 	r := fw.NewRng(p.Seed)
 	var sb strings.Builder
@@ -287,6 +344,9 @@ type monitor struct {
 	// tick (the scheduling point programs call themselves): mode and salt are fixed before the run starts
 	tickMode int
 	tickSalt uint64
+	// cores created (scheduling point "spawn", passed once per core) and cores which have reached the exit hook
+	// (called just before a core sends its final signal)
+	spawned, exited atomic.Int64
 }
 
 // tick is the host function `tick(id, j)`. Unlike yield it touches no shared memory at all (its decision is
@@ -342,7 +402,16 @@ func installHooks() {
 	hooksOnce.Do(func() {
 		runtime.VerifYield = func(site string) {
 			if m := curMon.Load(); m != nil {
+				if site == "spawn" {
+					m.spawned.Add(1)
+				}
 				m.yield(site)
+			}
+		}
+		// an atomic at the very end of a core orders nothing that the core still does
+		runtime.VerifCoreExit = func(*runtime.Core) {
+			if m := curMon.Load(); m != nil {
+				m.exited.Add(1)
 			}
 		}
 	})
@@ -454,6 +523,10 @@ type execution struct {
 	out        drive.Outcome
 	tWait      int64
 	stragglers int
+	// leftover: goroutines still inside Core.Run at the end of the grace period
+	leftover int
+	// unfinished: cores which had not reached their exit hook when the wait returned
+	unfinished int64
 }
 
 // execute analyzes, compiles and runs src on the real VM. hooks=false: no yields at the VM's scheduling points
@@ -487,10 +560,19 @@ func execute(src string, mon *monitor, hooks bool) (ex execution, sig, why strin
 	vm.SpawnAsync(runtime.MainFn(), nil, nil, nil)
 	_, intr := vm.Wait()
 	ex.tWait = mon.clock.Add(1)
+	if hooks {
+		ex.unfinished = mon.spawned.Load() - mon.exited.Load()
+	}
 	ex.out = drive.VMOutcome(intr)
 	// let stragglers (cores that Wait did not wait for) reveal themselves: sample until stable
-	for i := 0; i < 200; i++ {
+	// (after a fatal interrupt the other cores are cancelled, not waited for: they get a longer grace period)
+	grace := 200
+	if intr != nil {
+		grace = 3000
+	}
+	for i := 0; i < grace; i++ {
 		n := coreGoroutines()
+		ex.leftover = n
 		if n == 0 {
 			break
 		}
@@ -539,6 +621,22 @@ func (c17) Run(c fw.Case) fw.Result {
 			return res
 		}
 	}
+	// family fatal: the reference is what the VM reports when main simply calls the failing function
+	var fatalWant []string
+	if p.Shape == "fatal" {
+		for _, tsrc := range buildFatal(p).twins {
+			tex, sig, why := execute(tsrc, &monitor{planMode: map[string]int{}}, false)
+			if sig == "" && tex.out.Class != "fatal" {
+				sig, why = "harness:fatal-twin-outcome", fmt.Sprintf("the twin (main calls the failing function) ended with %s, not with a fatal error\n--- twin\n%s", tex.out, tsrc)
+			}
+			if sig != "" {
+				res.Verdict, res.Sig, res.Why = fw.Violated, sig, why
+				return res
+			}
+			fatalWant = append(fatalWant, fatalIdentity(tex.out))
+			res.Cover = append(res.Cover, "fatal-outcome:"+tex.out.Kind)
+		}
+	}
 	pr := rand.New(rand.NewSource(int64(p.Plan)))
 	mon := &monitor{prng: pr, planMode: map[string]int{}}
 	for _, site := range []string{"spawn", "wait-gap", "wait-gap-err", "glob-get", "glob-set"} {
@@ -551,7 +649,7 @@ func (c17) Run(c fw.Case) fw.Result {
 	if p.ForceGap {
 		mon.planMode["wait-gap"] = 4
 	}
-	if roShape(p.Shape) {
+	if roShape(p.Shape) || p.Shape == "fatal" {
 		// one plan in eight leaves the loop bodies alone; the others yield / sleep in them
 		if x := pr.Intn(8); x > 0 {
 			mon.tickMode = 1 + x%3
@@ -581,8 +679,19 @@ func (c17) Run(c fw.Case) fw.Result {
 		if out.Class != "ok" {
 			fail("outcome:"+out.Class+"/"+out.Kind, fmt.Sprintf("the wait returned %s for a program in which no core fails", out))
 		}
+	} else if fatalWant != nil {
+		have, ok := fatalIdentity(out), false
+		for _, w := range fatalWant {
+			ok = ok || w == have
+		}
+		if !ok {
+			fail("outcome:not-first-fatal:"+out.Class+"/"+out.Kind, fmt.Sprintf("the wait returned %q; the fatal interrupt of the failing core is (the same function called by main on a single core) %q", have, fatalWant))
+		}
 	} else if out.Class != "fatal" || out.Kind != sp.failKind {
 		fail("outcome:not-first-fatal:"+out.Class+"/"+out.Kind, fmt.Sprintf("the wait returned %s, expected the failing core's fatal %s", out, sp.failKind))
+	}
+	if sp.failKind != "" && out.Class == "fatal" && ex.leftover > 0 {
+		fail("fatal:rest-not-cancelled", fmt.Sprintf("%d goroutine(s) were still inside Core.Run 3 s after the wait had returned the fatal interrupt %s: the other cores were not cancelled", ex.leftover, out))
 	}
 	// fin events before wait-returned
 	if sp.failKind == "" {
@@ -601,8 +710,10 @@ func (c17) Run(c fw.Case) fw.Result {
 				fail("wait-returned-early:fin-after-wait", fmt.Sprintf("core with id %d finished at logical time %d, after the wait returned at %d", id, t, tWait))
 			}
 		}
-		if stragglers > 0 {
-			fail("wait-returned-early:cores-still-running", fmt.Sprintf("%d goroutine(s) were still inside Core.Run after the wait returned normally", stragglers))
+		// (a goroutine which has sent its final signal and has not yet returned from Core.Run is not a running core:
+		// what counts is the exit hook, which every core passes just before that signal)
+		if ex.unfinished > 0 {
+			fail("wait-returned-early:cores-still-running", fmt.Sprintf("%d core(s) had not reached the end of Core.Run when the wait returned normally (%d goroutine(s) seen inside Core.Run afterwards)", ex.unfinished, stragglers))
 		}
 	}
 	// output: exactly once and whole
@@ -630,7 +741,7 @@ func (c17) Run(c fw.Case) fw.Result {
 			case have[0] != want[0] && strings.HasPrefix(want[0], have[0]):
 				fail("output:unexpected-or-torn", fmt.Sprintf("core %s: the line %q reached the host torn, first chunk %q", id, util.Clip(want[0], 300), util.Clip(have[0], 300)))
 			case have[0] != want[0]:
-				fail(p.Shape+":result-differs-from-sequential", fmt.Sprintf("core %s, consuming values which no core ever writes, printed %q (r id count checksum elements); the same function called sequentially with the same arguments prints %q", id, util.Clip(have[0], 300), util.Clip(want[0], 300)))
+				fail(p.Shape+":result-differs-from-sequential", fmt.Sprintf("core %s, %s, printed %q; the same function called sequentially with the same arguments prints %q", id, roWhat(p.Shape), util.Clip(have[0], 300), util.Clip(want[0], 300)))
 			}
 		}
 		for id := range gotByID {
@@ -712,7 +823,7 @@ func (c17) OnCrash(c fw.Case, cr fw.Crash) fw.Result {
 	}
 	return fw.Result{Verdict: fw.Violated, Nontrivial: true,
 		Sig: fmt.Sprintf("crash:%s:%s:%s", cr.Kind, util.NormPanic(cr.Message), cr.TopFrame),
-		Why: fmt.Sprintf("worker died (%s: %s) at %s\n%s\n--- program\n%s", cr.Kind, util.Clip(cr.Message, 300), cr.TopFrame, util.Clip(cr.StderrTail, 1200), build(p).src)}
+		Why: fmt.Sprintf("the process running the VM died (%s: %s) at %s: no core ran to completion and the wait never returned (shape %s)\n%s\n--- program\n%s", cr.Kind, util.Clip(cr.Message, 300), cr.TopFrame, p.Shape, util.Clip(cr.StderrTail, 1200), build(p).src)}
 }
 
 // Finalize counts the distinct interleavings observed.
